@@ -61,9 +61,97 @@ def seqEvent (op : List String) (obs : List String) : Option SeqEv :=
   | some "probe", [f] => (kv? [f] "free").bind (·.toNat?) |>.map .free
   | _, _ => none
 
+/-! ### sequential replay through the site PROGRAMS (the tables the theorems are about) -/
+
+inductive Stop where
+  | user | halt | blocked | fuel
+  deriving Repr, DecidableEq
+
+def consumesChoice : Instr → Bool
+  | .branch _ _ => true
+  | .user _ => true
+  | _ => false
+
+/-- run thread `t` (environment choices `cs`, then `false`) until it is inside the guarded function,
+has finished, or is blocked. -/
+def runThread (p : Prog) : Nat → St → Tid → List Bool → St × Stop
+  | 0, s, _, _ => (s, .fuel)
+  | fuel + 1, s, t, cs =>
+    match p[s.pc t]? with
+    | none => (s, .halt)
+    | some r =>
+      if isUser r.instr then (s, .user)
+      else if r.instr = .halt then (s, .halt)
+      else
+        match step p s t (cs.headD false) with
+        | none => (s, .blocked)
+        | some s' => runThread p fuel s' t (if consumesChoice r.instr then cs.tail else cs)
+
+/-- leave the guarded function (normally or by panic) and run to the end. -/
+def finishThread (p : Prog) (s : St) (t : Tid) (pan : Bool) : St × Stop :=
+  match step p s t pan with
+  | none => (s, .blocked)
+  | some s' => runThread p 64 s' t [pan]
+
+def siteProgram : String → Option Prog
+  | "limit" => some Programs.limitClient
+  | "tlimit" => some Programs.timeoutLimitClient
+  | "runner" => some Programs.runner
+  | "maxconns" => some Programs.maxConns
+  | _ => none
+
+/-- environment choices that make a fresh thread of the site program take the path of the operation. -/
+def entryChoices : String → String → Option (List Bool)
+  | "limit", "try" => some [false]
+  | "limit", "borrow" => some [true]
+  | "tlimit", "try" => some [false, true]       -- not signalled, no time left: the refusal path
+  | "tlimit", "borrow" => some [false, true]
+  | "runner", "try" => some [true, false]       -- not Wait; ScheduleImmediately
+  | "runner", "borrow" => some [true, true]     -- not Wait; Schedule
+  | "maxconns", "try" => some []
+  | _, _ => none
+
+structure IRSeq where
+  prog    : Prog
+  st      : St
+  next    : Tid            -- next fresh model thread
+  holders : List Tid       -- threads inside the guarded function, oldest first
+
+/-- expected observation of one sequential operation according to the site program. -/
+def IRSeq.op (kind : String) (m : IRSeq) (op : List String) : Option (IRSeq × String) :=
+  match op with
+  | ["probe"] => some (m, s!"free={m.st.cap - m.st.used}")
+  | ["return"] | ["finish"] | ["finish", "panic"] =>
+    match m.holders with
+    | [] => some (m, if op.head? = some "return" then "err" else "none")
+    | t :: rest =>
+      let (s', stop) := finishThread m.prog m.st t (op = ["finish", "panic"])
+      some ({ m with st := s', holders := rest }, if stop = .halt then "ok" else "model-thread-did-not-finish")
+  | [o] =>
+    match entryChoices kind o with
+    | none => none
+    | some cs =>
+      let t := m.next
+      let (s', stop) := runThread m.prog 64 m.st t cs
+      let m' := { m with st := s', next := t + 1 }
+      match stop with
+      | .user => some ({ m' with holders := m.holders ++ [t] }, "ok")
+      | .halt => some (m', if kind = "tlimit" ∧ o = "borrow" then "timeout" else "refused")
+      | .blocked =>
+        -- the harness lets the oldest holder end so that the blocked call gets its permit
+        match m.holders with
+        | [] => some (m', "blocked-for-ever")
+        | h :: rest =>
+          let (s1, st1) := finishThread m.prog s' h false
+          let (s2, st2) := runThread m.prog 64 s1 t []
+          some ({ m' with st := s2, holders := rest ++ [t] },
+                if st1 = .halt ∧ st2 = .user then "blocked" else "model-handover-failed")
+      | .fuel => some (m', "model-out-of-fuel")
+  | _ => none
 def runSeq (r : Report) (s : Section) (kind : String) (n : Nat) : Report := Id.run do
   let mut sem := Sem.init n
   let mut mon : SeqMon := { cap := n, held := 0 }
+  let mut ir : Option IRSeq := (siteProgram kind).map fun p => { prog := p, st := St.init n, next := 0, holders := [] }
   let mut r := r
   for l in s.lines do
     r := { r with ops := r.ops + 1 }
@@ -77,6 +165,17 @@ def runSeq (r : Report) (s : Section) (kind : String) (n : Nat) : Report := Id.r
       r := r.addCover s!"{kind}-{br}"
       if exp ≠ impl then r := r.mismatch s.idx l.idx exp impl
       sem := sem'
+    -- the same operation through the site program (the table the interleaving theorems are about)
+    match ir with
+    | none => pure ()
+    | some m =>
+      match m.op kind l.op with
+      | none => r := r.mismatch s.idx l.idx "site-program: bad-op" (joinSp l.op)
+      | some (m', exp) =>
+        if exp ≠ impl then r := r.mismatch s.idx l.idx s!"site-program: {exp}" impl
+        if m'.st.used ≠ sem.used then r := r.mismatch s.idx l.idx s!"site-program used={m'.st.used}" s!"sem used={sem.used}"
+        r := r.addCover s!"{kind}-site-program-ops"
+        ir := some m'
     match seqEvent l.op l.obs with
     | none => r := r.mismatch s.idx l.idx "parsable-observation" impl
     | some ev =>
